@@ -71,7 +71,8 @@ def treeSpan : Handler := fun j => do
     | some p => Json.num (p.2 : Nat)
     | none => Json.null
   pure (Json.mkObj [("wf2", Json.bool (treeOk2 t')),
-    ("monotone", Json.bool (decide (PreorderMonotone (entries [] [] t')))),
+    ("monotone", Json.bool (namesOkTree t' && lastDescMono [] [] t')),
+    ("monotone_preorder", Json.bool (decide (PreorderMonotone (entries [] [] t')))),
     ("first", first), ("last", last), ("count", Json.num (ps.length : Nat))])
 
 def handlers : List (String × Handler) :=
